@@ -206,4 +206,8 @@ theorem C11_wiring :
     Sso.Generated.skel_validators_Run =
       ["call:len", "call:make", "range{", "call:Validate", "if{", "call:append", "}", "}", "return"] := by decide
 
+/-- Tie (T1): `SetValidators` *replaces* the proxy's validator list. -/
+theorem C11_skeleton_SetValidators : Sso.Generated.skel_proxy_SetValidators =
+    ["func{", "store:op.Validators", "return", "}", "return"] := by decide
+
 end Sso.Validators
